@@ -349,4 +349,68 @@ example :
 
 end Examples
 
+/-! ## `datagram_option` (timeout / parallel threshold) aggregation — `Group.aggOptions`, used by the
+`group` driver to answer the `opt` line and to resolve delayed / missing acknowledgements -/
+
+private theorem foldl_bounds (l : List DgOpt) (a : DgOpt) :
+    a.timeout ≤ (l.foldl DgOpt.agg a).timeout ∧ (l.foldl DgOpt.agg a).parThr ≤ a.parThr ∧
+    ∀ d ∈ l, d.timeout ≤ (l.foldl DgOpt.agg a).timeout ∧ (l.foldl DgOpt.agg a).parThr ≤ d.parThr := by
+  induction l generalizing a with
+  | nil => simp
+  | cons x l ih =>
+    obtain ⟨h1, h2, h3⟩ := ih (DgOpt.agg a x)
+    have e1 : (DgOpt.agg a x).timeout = max a.timeout x.timeout := rfl
+    have e2 : (DgOpt.agg a x).parThr = min a.parThr x.parThr := rfl
+    rw [e1] at h1
+    rw [e2] at h2
+    simp only [List.foldl, List.mem_cons]
+    refine ⟨by omega, by omega, ?_⟩
+    intro d hd
+    rcases hd with rfl | hd
+    · exact ⟨by omega, by omega⟩
+    · exact h3 d hd
+
+/-- **`datagram_option` aggregation**: once the datagrams `l` were consumed, the timeout `send_impl`
+receives is at least every datagram's timeout and the parallel threshold at most every datagram's -/
+theorem aggOptions_bounds (l : List DgOpt) (d : DgOpt) (h : d ∈ l) :
+    d.timeout ≤ (aggOptions l).timeout ∧ (aggOptions l).parThr ≤ d.parThr :=
+  (foldl_bounds l DgOpt.zero).2.2 d h
+
+/-- …and neither depends on the iteration order of the internal `HashMap` -/
+theorem aggOptions_perm {l₁ l₂ : List DgOpt} (h : l₁.Perm l₂) : aggOptions l₁ = aggOptions l₂ := by
+  unfold aggOptions
+  generalize DgOpt.zero = a
+  induction h generalizing a with
+  | nil => rfl
+  | cons x _ ih => exact ih _
+  | swap x y l =>
+    simp only [List.foldl]
+    congr 1
+    simp [DgOpt.agg, Nat.max_assoc, Nat.min_assoc, Nat.max_comm x.timeout, Nat.min_comm x.parThr]
+  | trans _ _ ih1 ih2 => exact (ih1 a).trans (ih2 a)
+
+/-- without a sender timeout, acknowledgements are not waited for (timeout 0) exactly when **every**
+datagram of the call asks for that -/
+theorem effTimeout_zero_iff (l : List DgOpt) :
+    effTimeout none (aggOptions l) = 0 ↔ ∀ d ∈ l, d.timeout = 0 := by
+  constructor
+  · intro h d hd
+    have := (aggOptions_bounds l d hd).1
+    simp [effTimeout] at h; omega
+  · intro h
+    simp only [effTimeout, Option.getD_none, aggOptions]
+    have : ∀ a : DgOpt, a.timeout = 0 → (l.foldl DgOpt.agg a).timeout = 0 := by
+      induction l with
+      | nil => intro a ha; exact ha
+      | cons x l ih =>
+        intro a ha
+        simp only [List.foldl]
+        apply ih (fun d hd => h d (List.mem_cons_of_mem _ hd))
+        simp [DgOpt.agg, ha, h x (List.mem_cons_self ..)]
+    exact this _ rfl
+
+example : aggOptions [⟨0, usizeMax⟩, ⟨200, 4⟩, ⟨20, 7⟩] = ⟨200, 4⟩ := by decide
+example : effTimeout none (aggOptions [⟨0, 3⟩, ⟨0, 2⟩]) = 0 ∧ effTimeout (some 5) (aggOptions [⟨0, 3⟩]) = 5 := by decide
+example : ParMode.auto.isParallel 3 2 = true ∧ ParMode.auto.isParallel 2 2 = false ∧ ParMode.off.isParallel 9 0 = false := by decide
+
 end Autd3.Group
